@@ -16,18 +16,17 @@ SPEC = dict(
              'The same three theorems (serialize = spec encoding and never fails for fields in range; spec decoder inverts it; own '
              'parser = spec decoder on every cell the decoder accepts) for every stand-alone wrapper: StateInit, CurrencyCollection, '
              'WalletV3Data, WalletV4Data, HashUpdate, NftItemData, NftItemSaleFees, NftItemSaleData (Spec/Tlb/Wrappers.lean from the '
-             'contracts\' storage layouts, Model/Wrappers.lean from the code). The two half-implemented wrappers are characterised '
-             'exactly: HighloadWalletData.serialize writes the value with old_queries emptied, so the round trip holds iff old_queries '
-             'is empty (c15_highload_round_trip_iff); WalletMessage.serialize is correct, WalletMessage.deserialize returns None on '
-             'every cell (c15_wallet_message_own_parser_stub) -- finding F23. '
+             'contracts\' storage layouts, Model/Wrappers.lean from the code), and also for HighloadWalletData and WalletMessage after '
+             'the repair of F23 (serialize dropped old_queries; WalletMessage.deserialize was a stub): full round trip with queries '
+             'present (c15_highload_round_trip) and own parser = spec decoder (c15_wallet_message_own_parser). '
              'Model = library is checked differentially on a boundary sweep of the joint bit/ref budget and on boundary values of '
              'every wrapper field; the property itself is evaluated on the library against a second, Python transcription of the '
              'schemas (library serialize -> spec decoder; spec encoding -> library parser).',
         level_note='theorems are about the hand model; model = pytoniq-core only on the generated inputs (sampled). Dictionaries '
                    '(extra currencies, library, plugins, old_queries) are optional root references (dictionary contents are C09/C10). '
                    'bits256 fields must be 32 bytes: the library does not check the length (a shorter key serialises to a cell that is '
-                   'not a valid value; shown as an example, outside the property). F23 (HighloadWalletData.old_queries, '
-                   'WalletMessage.deserialize) is a recorded finding with two keys.',
+                   'not a valid value; shown as an example, outside the property). The dictionary a HighloadWalletData cell holds is compared '
+                   'semantically (HashMap.parse for the structure, the spec decoder per value), its root cell being opaque to the theorems.',
         technique='Lean 4 proof (hand model) + differential correspondence with the library'),
     design_ref='DESIGN.md §6 C15',
     rule='boundary sweep: header kind (internal / ext-in / ext-out) x extra-currency dict (0/1/many entries) x state-init shape '
@@ -317,42 +316,55 @@ def check_wrapper(ctx, kind, v, tag):
     if kind == 'wm':
         valid = valid and must_fit(v['msg']) and 0 <= v['mode'] < 256
     ctx.count(f'{kind}:' + ('valid' if valid else 'out-of-range-or-too-big'))
-    qvals = None if kind != 'hl' or not v['q'] else {k: W.canon('wm', x) for k, x in v['q'].items()}
+    # a highload wallet's logical dictionary: {query id: wallet message}; its root cell depends on the Either choices inside
+    qvals = None if kind != 'hl' else {k: W.canon('wm', x) for k, x in (v['q'] or {}).items()}
+    if qvals:
+        ctx.count('hl:with-queries')
     # ---- (a) library serialize -> independent spec decoder
     try:
         c = W.lib_obj(kind, v).serialize()
     except Exception as e:
         c, err = None, repr(e)
-    d = M.Dag()
-    t = W.tok(kind, v, d)
-    ctx.expect_model(f'{"wmser" if kind == "wm" else "wser"} {d.line()} {t}', M.show_cell(c) if c is not None else 'err',
-                     f'{name}.serialize ({tag})')
+    vm = v
+    if qvals:
+        try:
+            vm = dict(v, root=W.queries_root_lib(v['q']))       # the root as HashMap + WalletMessage.serialize build it
+        except Exception:
+            vm = None
+    if vm is not None:
+        d = M.Dag()
+        t = W.tok(kind, vm, d)
+        ctx.expect_model(f'{"wmser" if kind == "wm" else "wser"} {d.line()} {t}', M.show_cell(c) if c is not None else 'err',
+                         f'{name}.serialize ({tag})')
     if valid and c is None:
         ctx.fail(f'{kind}-raises', f'{name}.serialize raised on a value whose fields are in range and whose encoding fits a cell', inp, err, 'a cell')
     if valid and c is not None:
+        croot = None
         try:
             got = W.dec(kind, c)
-        except Exception as e:
-            got = f'not a {name}: {e}'
-        if got != want:
-            if kind == 'hl' and v['root'] is not None and got == W.canon('hl', dict(v, root=None)):
-                ctx.fail('highload-old-queries-dropped', 'HighloadWalletData.serialize does not write old_queries', inp, got, want)
+            if kind == 'hl':
+                croot = c.refs[0] if c.refs else None
+                gq = W.parse_queries(croot)
+                got_cmp, want_cmp = (got.rsplit(';', 1)[0], gq), (want.rsplit(';', 1)[0], qvals)
             else:
-                ctx.fail(f'{kind}-spec', f'{name}.serialize does not decode (layout of the contract / TL-B declaration) to the same value', inp, got, want)
+                got_cmp, want_cmp = got, want
+        except Exception as e:
+            got_cmp, want_cmp = f'not a {name}: {e}', want
+        if got_cmp != want_cmp:
+            ctx.fail(f'{kind}-spec', f'{name}.serialize does not decode (layout of the contract / TL-B declaration) to the same value', inp,
+                     got_cmp, want_cmp)
         else:
             dc = M.Dag()
             ci = dc.add(c)
-            ctx.expect_model(f'wdec {dc.line()} {ci} {kind}', 'ok ' + want, f'{name}: Lean spec decoder on the library cell')
-            if kind != 'wm':
+            ctx.expect_model(f'wdec {dc.line()} {ci} {kind}', 'ok ' + got, f'{name}: Lean spec decoder on the library cell')
+            if kind != 'wm' and not qvals:
                 e0 = encs[(False, False)]
                 if (M.bits_of(c), [r.hash for r in c.refs]) != (e0[0], [r.hash for r in e0[1]]):
                     ctx.fail(f'{kind}-enc', f'{name}.serialize is not THE encoding of the value (the layout has a single one)', inp,
                              M.show_cell(c), M.show_cell(M.mk_cell(*e0)))
-            own, vals = lib_parse_wrapper(kind, c, v)
-            if kind == 'wm' and own == 'None':
-                ctx.fail('wallet-message-deserialize-stub', 'WalletMessage.deserialize returns None', inp, own, want)
-            elif own != want or (qvals is not None and vals != qvals):
-                ctx.fail(f'{kind}-own', f'{name}.deserialize(serialize(v)) is a different value', inp, (own, vals), (want, qvals))
+            own, vals = lib_parse_wrapper(kind, c, dict(v, root=croot) if kind == 'hl' else v)
+            if own != got or (qvals and vals != qvals):
+                ctx.fail(f'{kind}-own', f'{name}.deserialize(serialize(v)) is a different value', inp, (own, vals), (got, qvals))
     # ---- (b) every spec encoding -> library deserialize ; (c) Lean spec encoder / model parser
     for ch, e in encs.items():
         d2 = M.Dag()
@@ -369,16 +381,10 @@ def check_wrapper(ctx, kind, v, tag):
         ctx.expect_model(f'wpar {de.line()} {ei} {kind}', 'err' if got.startswith('raised') else 'ok ' + got,
                          f'{name}: model parser on the spec encoding')
         ctx.expect_model(f'wdec {de.line()} {ei} {kind}', 'ok ' + want, f'{name}: Lean spec decoder on the spec encoding')
-        if kind == 'wm' and got == 'None':
-            ctx.fail('wallet-message-deserialize-stub', 'WalletMessage.deserialize returns None for a valid wallet message cell', inp, got, want)
-        elif got != want:
+        if got != want:
             ctx.fail(f'{kind}-parse', f'{name}.deserialize of the valid encoding is a different value', inp, got, want)
-        elif qvals is not None and vals != qvals:
-            if vals is not None and set(vals) == set(qvals) and all(x == 'None' for x in vals.values()):
-                ctx.fail('wallet-message-deserialize-stub', 'HighloadWalletData.deserialize returns {query_id: None}: WalletMessage.deserialize is a stub',
-                         inp, vals, qvals)
-            else:
-                ctx.fail('hl-parse', 'HighloadWalletData.deserialize: old_queries differ', inp, vals, qvals)
+        elif qvals and vals != qvals:
+            ctx.fail('hl-parse', 'HighloadWalletData.deserialize: old_queries differ from the dictionary the cell holds', inp, vals, qvals)
 
 
 def check_out_of_range(ctx, pool):
